@@ -432,3 +432,129 @@ Proof.
   change (w_cache t1) with (w_cache t).
   destruct (ti_get (w_cache t) loc) as [dispute|]; [apply store_triggered_ok|apply store_appointment_ok]; assumption.
 Qed.
+
+(* ------------------------------------------------------------------------------------------ *)
+(* 3. the responder's listener *)
+
+Notation bal := TowerLedger.bal.
+Notation avail := TowerLedger.avail.
+Notation held_t := TowerLedger.held_t.
+Notation ssum := TowerLedger.ssum.
+Notation ofu := TowerLedger.ofu.
+Notation aslots := TowerLedger.aslots.
+
+(* nobody's balance (available + held slots) exceeds u32 *)
+Definition SlotInv (t : tower) : Prop := forall v, bal t v <= U32MAX.
+
+Lemma ssum_filter_and_le (p q : app -> bool) l : ssum (filter (fun a => p a && q a) l) <= ssum (filter p l).
+Proof.
+  induction l as [|a l IH]; cbn [filter]; [lia|].
+  destruct (p a), (q a); cbn [andb]; rewrite ?TowerLedger.ssum_cons; lia.
+Qed.
+
+Lemma ssum_filter_filter_le (p q : app -> bool) l : ssum (filter p (filter q l)) <= ssum (filter p l).
+Proof.
+  induction l as [|a l IH]; cbn [filter]; [lia|].
+  destruct (q a); cbn [filter]; destruct (p a); rewrite ?TowerLedger.ssum_cons; lia.
+Qed.
+
+(* S_gk_refund_row_unwrap, S_gk_refund_user_unwrap, S_gk_refund_overflow *)
+Lemma refund_loop_ok : forall us t,
+  Inv t -> NoDup us -> (forall u, In u us -> find_app (db_apps t) u <> None) ->
+  (forall v, avail t v + ssum (filter (fun a => ofu v a && mem_uuid (app_uuid a) us) (db_apps t)) <= U32MAX) ->
+  exists t', refund_loop t us = Ok tt t'.
+Proof.
+  induction us as [|uuid us IH]; intros t HI Hnd Hrows Hb; cbn [refund_loop]; [eauto|].
+  apply NoDup_cons_iff in Hnd. destruct Hnd as [Hu Hnd].
+  destruct (find_app (db_apps t) uuid) as [a|] eqn:Ef; [|exfalso; exact (Hrows uuid (or_introl eq_refl) Ef)].
+  destruct (find_app_Some _ _ _ Ef) as [Hain _].
+  pose proof (inv_fk_app t HI a Hain) as Hfk. unfold amem in Hfk.
+  destruct (aget (db_users t) (a_user a)) as [ui|] eqn:Eu; [|discriminate].
+  assert (Eg : gk_get t (a_user a) = Some ui) by (unfold gk_get; rewrite (inv_sync t HI); exact Eu).
+  rewrite Eg.
+  assert (Ho : ofu (a_user a) a = true) by (apply TowerLedger.ofu_true; reflexivity).
+  pose proof (Hb (a_user a)) as Hba.
+  rewrite (TowerLedger.ssum_mem_cons (ofu (a_user a)) uuid us (db_apps t) (inv_apps_nodup t HI) Hu), Ef, Ho in Hba.
+  unfold TowerLedger.avail in Hba. rewrite Eu in Hba.
+  change (slots_of (b_len (a_blob a))) with (aslots a). unfold u32_add.
+  assert (Hle : u_slots ui + aslots a <= U32MAX) by lia. apply N.leb_le in Hle. rewrite Hle.
+  set (s := u_slots ui + aslots a).
+  apply IH.
+  - exact (inv_refund t (a_user a) ui s HI Eg).
+  - exact Hnd.
+  - intros u Hu'. change (db_apps (p_refund_user t (a_user a) ui s)) with (db_apps t). apply Hrows. right. exact Hu'.
+  - intros v. change (db_apps (p_refund_user t (a_user a) ui s)) with (db_apps t).
+    pose proof (Hb v) as Hbv.
+    rewrite (TowerLedger.ssum_mem_cons (ofu v) uuid us (db_apps t) (inv_apps_nodup t HI) Hu), Ef in Hbv.
+    assert (Hget : aget (db_users (p_refund_user t (a_user a) ui s)) v =
+                   if N.eqb v (a_user a) then option_map (fun x => mk_uinfo s (u_start x) (u_expiry x)) (aget (db_users t) v)
+                   else aget (db_users t) v).
+    { unfold p_refund_user, db_update_user_slots. cbn [db_users set_db_users gk_put set_gk_users]. apply aget_map_slots. }
+    unfold TowerLedger.avail in *. rewrite Hget. destruct (N.eqb v (a_user a)) eqn:Ev.
+    + apply N.eqb_eq in Ev. subst v. rewrite Eu in *. cbn [option_map u_slots]. rewrite Ho in Hbv. subst s. lia.
+    + lia.
+Qed.
+
+(* S_r_reorg_unreachable *)
+Lemma reorged_loop_ok sc h : forall us t rej, TowerReorg.memo_ok t -> ok (reorged_loop sc h us t rej).
+Proof.
+  induction us as [|uuid us IH]; intros t rej Hm; cbn [reorged_loop]; [exact I|].
+  destruct (find_trk (db_trks t) uuid) as [k|]; [|apply IH; exact Hm].
+  pose proof (memo_ok_send sc t (t_dispute k) Hm) as Hm1.
+  destruct (send_transaction sc t (t_dispute k)) as [s t1] eqn:E1. cbn [snd] in Hm1.
+  destruct s as [hh|hh| |c].
+  - exfalso. apply send_confirmed_memo in E1. exact (Hm1 _ _ E1).
+  - pose proof (memo_ok_send sc t1 (t_penalty k) Hm1) as Hm2.
+    destruct (send_transaction sc t1 (t_penalty k)) as [s2 t2]. cbn [snd] in Hm2.
+    destruct (status_rejected s2); apply IH; exact Hm2.
+  - pose proof (memo_ok_send sc t1 (t_penalty k) Hm1) as Hm2.
+    destruct (send_transaction sc t1 (t_penalty k)) as [s2 t2]. cbn [snd] in Hm2.
+    destruct (status_rejected s2); apply IH; exact Hm2.
+  - apply IH. exact Hm1.
+Qed.
+
+Lemma r_block_connected_ok le sc t b h :
+  Inv t -> idx_wf (r_index t) -> TowerReorg.memo_ok t -> SlotInv t -> RETRY <= h ->
+  ok (r_block_connected le sc t b h).
+Proof.
+  intros HI Hwf Hm HS Hh. unfold r_block_connected.
+  change (r_index (set_car_height t h)) with (r_index t).
+  destruct (ti_update_some (r_index t) b Hwf) as [idx Ei]. rewrite Ei.
+  set (t1 := set_r_index (set_car_height t h) idx). set (txids := keys_of (ib_data b)).
+  assert (HI1 : Inv t1) by (eapply inv_frame; [|exact HI]; repeat split).
+  pose proof (check_conf_loop_spec le txids h t1 [] HI1) as Hcc.
+  pose proof (check_conf_loop_pres Inv (sb_wr _ (sa_block _ inv_stable)) le txids h (db_trks t1) t1 [] HI1) as HI2.
+  rewrite Hcc in HI2. cbn [pres] in HI2. rewrite Hcc. cbn [bind List.app].
+  set (completed := completed_list txids h t1) in *. set (t2 := cc_result txids h t1) in *.
+  rewrite (delete_opt t2 completed true). unfold gk_delete_appointments.
+  destruct (refund_loop_ok completed t2 HI2) as [tR Er].
+  { unfold completed, completed_list. apply NoDup_map_filter. exact (inv_trks_nodup t1 HI1). }
+  { intros u Hu. unfold completed, completed_list in Hu. apply in_map_iff in Hu. destruct Hu as [k [He Hk]].
+    apply filter_In in Hk. destruct Hk as [Hk _].
+    destruct (inv_fk_trk t1 HI1 k Hk) as [a [Ha Hau]].
+    change (db_apps t2) with (db_apps t1). destruct (find_app_In _ _ Ha) as [a' Ha'].
+    rewrite <- He, <- Hau, Ha'. discriminate. }
+  { intros v. change (db_apps t2) with (db_apps t). specialize (HS v). unfold TowerLedger.bal, TowerLedger.held_t in HS.
+    change (avail t2 v) with (avail t v).
+    pose proof (ssum_filter_and_le (ofu v) (fun a => mem_uuid (app_uuid a) completed) (db_apps t)). lia. }
+  rewrite Er. cbn [bind].
+  assert (HIR : Inv tR).
+  { pose proof (refund_loop_pres Inv (sb_wr _ (sa_block _ inv_stable)) completed t2 HI2) as Hp. rewrite Er in Hp. exact Hp. }
+  assert (HmR : car_memo tR = car_memo t).
+  { destruct (refund_loop_spec _ _ _ HI2 Er) as [[g [d EtR]] _]. rewrite EtR. reflexivity. }
+  rewrite (reorged_opt sc h (db_delete_apps tR completed)).
+  set (t3 := set_reorged (db_delete_apps tR completed) []).
+  assert (HI3 : Inv t3) by (eapply inv_frame; [|apply inv_delete; exact HIR]; repeat split).
+  apply ok_bind.
+  { apply reorged_loop_ok. intros x hh. change (car_memo t3) with (car_memo tR). rewrite HmR. apply Hm. }
+  intros rej1 t4 E4.
+  assert (HI4 : Inv t4).
+  { pose proof (reorged_loop_pres Inv (sb_wr _ (sa_block _ inv_stable)) sc h (reorged (db_delete_apps tR completed)) t3 [] HI3) as Hp. rewrite E4 in Hp. exact Hp. }
+  fold RETRY. unfold u32_sub. apply N.leb_le in Hh. rewrite Hh.
+  apply ok_bind.
+  { match goal with |- ok (stale_loop sc h ?us t4 []) => destruct (stale_loop_spec sc h us t4 [] HI4) as [t5 [E5 _]] end.
+    - intros u Hu. apply in_map_iff in Hu. destruct Hu as [k [He Hk]]. apply filter_In in Hk. destruct Hk as [Hk _].
+      rewrite <- He. apply find_trk_In. exact Hk.
+    - rewrite E5. exact I. }
+  intros rej2 t5 _. apply ok_bind; [destruct (rej1 ++ rej2); exact I|intros; exact I].
+Qed.
